@@ -19,7 +19,7 @@ For a random read the harness passes what it recorded at the generator: the argu
 open Lean Drive
 namespace Drive
 
-def errName : Store.Err → String
+private def errName : Store.Err → String
   | .exists => "exists" | .incompatible => "incompatible" | .noFile => "nofile" | .notImpl => "notimpl"
   | .key => "key" | .index => "index" | .value => "value" | .units => "units" | .choice => "choice"
 
